@@ -134,6 +134,9 @@ func gameStart(r *rand.Rand, kind int) (ref.Pos, gen.Bias, int) {
 	case 2: // long no-progress runs from a FEN clock in 0..99
 		p := starts[r.Intn(len(starts))]
 		p.Half = r.Intn(100)
+		if r.Intn(5) == 0 {
+			p.Half = []int{99, 100, 100, 101, 120, 149, 1000}[r.Intn(7)] // a set-up already at or beyond the limit
+		}
 		return p, gen.NoProgress, 20 + r.Intn(160)
 	case 3: // high clocks on sparse boards: the 100th ply arrives before any repetition
 		p := gen.TacticOK(r, 8+r.Intn(2))
@@ -175,7 +178,7 @@ func init() {
 				"pushes": 50000, "ev_threefold": 200, "ev_fivefold": 20, "ev_threefold_of_start": 5, "ev_rep_first_occ_after_irreversible": 20,
 				"ev_rep_first_occ_after_castling": 1, "ev_rep_first_occ_is_start": 5,
 				"ev_clock100_first": 20, "ev_clock100_first_from_fen_clock": 10, "ev_insufficient_first": 20, "near_miss_material": 20,
-				"adjudicated_mate": 3, "adjudicated_stalemate": 1, "forks": 50, "ev_repetition_first_after_fork": 5, "query_rounds": 20000, "ev_insufficient_after_ep": 5, "ev_clock100_by_castling": 5,
+				"adjudicated_mate": 3, "adjudicated_stalemate": 1, "forks": 50, "ev_repetition_first_after_fork": 5, "query_rounds": 20000, "ev_insufficient_after_ep": 5, "ev_clock100_by_castling": 5, "ev_clock_beyond_100_at_setup": 10,
 			}
 		},
 		Run: func(c *fw.Ctx, cs fw.Case) {
